@@ -78,6 +78,29 @@ class Tr:
             if [t for t, _ in a] != ["T", "T"]:
                 raise Unsupported("dot of non-tensors")
             return "R", "(t_dot %s %s)" % (a[0][1], a[1][1])
+        if n == "tn.partial" and len(e.args) == 2 and all(k.arg in ("order", "bounds") for k in e.keywords) \
+                and "bounds" in [k.arg for k in e.keywords]:
+            # tn.partial(t, dim, order=o, bounds=pair): non-periodic partial derivative along one mode
+            ty, x = self.texpr(e.args[0])
+            if ty != "T":
+                raise Unsupported("partial of a non-tensor")
+            d = self.nexpr(e.args[1])
+            kw = {k.arg: k.value for k in e.keywords}
+            o = self.nexpr(kw["order"]) if "order" in kw else "1%nat"
+            tb, b = self.texpr(kw["bounds"])
+            if tb != "Q":
+                raise Unsupported("partial with bounds of kind " + tb)
+            return "T", "(t_partial %s %s %s %s)" % (x, d, o, b)
+        if n == "sum" and len(e.args) == 1 and not e.keywords:
+            ty, x = self.texpr(e.args[0])
+            if ty != "L":
+                raise Unsupported("builtin sum of kind " + ty)
+            return "T", "(t_pysum %s)" % x
+        if n == "len" and len(e.args) == 1 and not e.keywords:
+            ty, x = self.texpr(e.args[0])
+            if ty != "S":
+                raise Unsupported("len of kind " + ty)
+            return "N", "(s_len %s)" % x
         if isinstance(f, ast.Attribute) and f.attr == "dim" and not e.args and not e.keywords:
             ty, x = self.texpr(f.value)
             if ty != "T":
@@ -115,7 +138,44 @@ class Tr:
             return rty, "(%s %s)" % (cn, " ".join(x for _, x in a))
         raise Unsupported("call of " + (n or ast.dump(f)[:40]))
 
+    def nexpr(self, e):
+        """an expression used as a natural number (mode number, order, length)"""
+        if isinstance(e, ast.Constant) and isinstance(e.value, int) and not isinstance(e.value, bool) and e.value >= 0:
+            return "%d%%nat" % e.value
+        ty, x = self.texpr(e)
+        if ty != "N":
+            raise Unsupported("natural number expected, got kind " + ty)
+        return x
+
     def texpr(self, e):
+        if isinstance(e, ast.Subscript) and isinstance(e.value, ast.Name) and e.value.id in self.env \
+                and self.ty[e.value.id] in ("S", "P"):
+            # ts[k] on a sequence of tensors / bounds[k] on per-mode bounds
+            k = self.nexpr(e.slice)
+            if self.ty[e.value.id] == "S":
+                return "T", "(s_nth %s %s)" % (self.env[e.value.id], k)
+            return "Q", "(b_at %s %s)" % (self.env[e.value.id], k)
+        if isinstance(e, ast.List):
+            items = [self.texpr(x) for x in e.elts]
+            if not items or any(t != "T" for t, _ in items):
+                raise Unsupported("list of non-tensors")
+            return "L", "[%s]" % "; ".join(x for _, x in items)
+        if isinstance(e, ast.ListComp) and len(e.generators) == 1 and not e.generators[0].ifs \
+                and isinstance(e.generators[0].target, ast.Name) and isinstance(e.generators[0].iter, ast.Call) \
+                and qname(e.generators[0].iter.func) == "range" and len(e.generators[0].iter.args) == 1:
+            # [f(n) for n in range(E)]
+            v = e.generators[0].target.id
+            if v in self.env:
+                raise Unsupported("comprehension variable shadows " + v)
+            bound = self.nexpr(e.generators[0].iter.args[0])
+            self.env[v] = v; self.ty[v] = "N"
+            try:
+                ty, body = self.texpr(e.elt)
+            finally:
+                del self.env[v]; del self.ty[v]
+            if ty != "T":
+                raise Unsupported("comprehension of non-tensors")
+            return "L", "(map (fun %s : nat => %s) (seq 0 %s))" % (v, body, bound)
         if isinstance(e, ast.Name):
             if e.id in self.env:
                 return self.ty[e.id], self.env[e.id]
@@ -201,6 +261,26 @@ class Tr:
                 return rty, "(%s %s)" % (cn, " ".join(x for _, x in args))
         raise Unsupported("operator method %s for kinds %s not translated yet" % (key, kinds))
 
+    def _is_bounds_normalisation(self, s):
+        """`if B is None: B = ... elif not hasattr(B[0], '__len__'): B = ...` (no else) for an argument B of kind P:
+        neither branch runs when B is a list of pairs, and both only rebind B"""
+        def only_rebinds(body, nm):
+            return all(isinstance(x, ast.Assign) and len(x.targets) == 1 and isinstance(x.targets[0], ast.Name)
+                       and x.targets[0].id == nm for x in body)
+        t = s.test
+        if not (isinstance(t, ast.Compare) and len(t.ops) == 1 and isinstance(t.ops[0], ast.Is) and isinstance(t.left, ast.Name)
+                and isinstance(t.comparators[0], ast.Constant) and t.comparators[0].value is None):
+            return False
+        nm = t.left.id
+        if self.ty.get(nm) != "P" or not only_rebinds(s.body, nm):
+            return False
+        if not s.orelse:
+            return True
+        if len(s.orelse) == 1 and isinstance(s.orelse[0], ast.If) and not s.orelse[0].orelse \
+                and ast.unparse(s.orelse[0].test) == "not hasattr(%s[0], '__len__')" % nm and only_rebinds(s.orelse[0].body, nm):
+            return True
+        return False
+
     def body(self, fn):
         out = None
         for s in fn.body:
@@ -209,6 +289,10 @@ class Tr:
             if isinstance(s, ast.Assign) and isinstance(s.targets[0], ast.Tuple) and isinstance(s.value, ast.Call) \
                     and qname(s.value.func) == "_process":
                 continue                      # both operands compressed: _process is the identity
+            if isinstance(s, ast.Assert):
+                continue                      # a precondition: a premise of the theorems about this variant
+            if isinstance(s, ast.If) and self._is_bounds_normalisation(s):
+                continue                      # variant: bounds already is a list of one pair per mode
             if isinstance(s, ast.If) and s.orelse and isinstance(s.test, ast.Compare) and len(s.test.ops) == 1 \
                     and isinstance(s.test.ops[0], ast.Is) and isinstance(s.test.left, ast.Name) \
                     and isinstance(s.test.comparators[0], ast.Constant) and s.test.comparators[0].value is None \
@@ -242,7 +326,7 @@ class Tr:
         return out
 
 
-COQ_TY = {"T": "tensor", "R": "R", "B": "Prop", "G": "marg", "N": "nat"}
+COQ_TY = {"T": "tensor", "R": "R", "B": "Prop", "G": "marg", "N": "nat", "S": "tseq", "P": "bnds", "Q": "bnd", "L": "list tensor"}
 
 # (python qualified name, file, class or None, function, variants: list of (suffix, {arg: kind}, none_args))
 PLAN = [
@@ -271,12 +355,17 @@ PLAN = [
     ("tn.equiv", "logic.py", None, "equiv", [("", {"t1": "T", "t2": "T"}, [])]),
     ("tn.mean_dimension", "anova.py", None, "mean_dimension",
      [("N", {"t": "T", "marginals": "G"}, ["mask"]), ("M", {"t": "T", "mask": "T", "marginals": "G"}, [])]),
+    # vector calculus, variant P: bounds given as a list of one [lower, upper] pair per mode
+    ("tn.divergence", "derivatives.py", None, "divergence", [("P", {"ts": "S", "bounds": "P"}, [])]),
+    ("tn.curl", "derivatives.py", None, "curl", [("P", {"ts": "S", "bounds": "P"}, [])]),
+    ("tn.laplacian", "derivatives.py", None, "laplacian", [("P", {"t": "T", "bounds": "P"}, [])]),
 ]
 
 HEADER = """(* GENERATED on every run from the current source of /repo/tntorch by translator/py2coq.py -- never edit.
    One definition per Python function and argument-kind variant (T = compressed tensor, R = scalar).
    Kernel primitives (hand-modelled, tied by correspondence) are the Section variables. *)
-From Coq Require Import Reals.
+From Coq Require Import Reals List.
+Import ListNotations.
 Open Scope R_scope.
 Section Gen.
 Variable tensor : Type.
@@ -289,6 +378,13 @@ Variable t_sobol : tensor -> tensor -> marg -> R.
 Variable t_weight : nat -> tensor.
 Variable t_mask : tensor -> tensor -> tensor.
 Variable t_dim : tensor -> nat.
+Variable tseq : Type.
+Variable s_nth : tseq -> nat -> tensor.
+Variable s_len : tseq -> nat.
+Variables bnds bnd : Type.
+Variable b_at : bnds -> nat -> bnd.
+Variable t_partial : tensor -> nat -> nat -> bnd -> tensor.
+Variable t_pysum : list tensor -> tensor.
 """
 
 
